@@ -10,7 +10,9 @@ translate (tx/tx_c01.py: default_content_types, part-class map, accepted main ty
    codec: the concrete codec of model/OpcCodec.v (proofs/OpcCodec_proofs.v: dec (enc l) = Some l
    for every list of XML strings) against lxml: the text _Relationships.xml / serialize_part_xml
    of CT_Types really write, and what _Relationships.load_from_xml / _ContentTypeMap.from_xml
-   read back from those bytes, on generated relationship lists and content-type tables.
+   read back from those bytes, on generated relationship lists and content-type tables; for one
+   list in three also a variant of the same document (other reference forms, literal white space
+   in attribute values, explicit TargetMode) read by the loader and by the model reader.
 -> oracle: the property's statement evaluated on the saved bytes with an independent
    reading of OPC (zipfile + lxml + posixpath), no model involved.
 """
@@ -19,6 +21,7 @@ import glob
 import io
 import json
 import os
+import re
 import shutil
 import tempfile
 
@@ -295,38 +298,73 @@ def impl_ct_read(data):
     return raw, (dict(m._defaults), dict(m._overrides))
 
 
-def codec_rels_case(rels):
-    """(model cases, judge) for one relationship list"""
+def codec_variant(text, rng):
+    """The same rels item written the way another producer might: other reference forms,
+    literal white space inside attribute values (normalised by the parser), an apostrophe
+    as a reference, an explicit TargetMode on internal relationships.  Same document shape."""
+    subs = [("&amp;", ["&#38;", "&#x26;"]), ("&lt;", ["&#60;", "&#x3C;"]), ("&gt;", [">", "&#62;"]),
+            ("&quot;", ["&#34;", "&#x22;"]), ("&#9;", ["\t", "&#x9;"]), ("&#10;", ["\n", "&#xA;"]),
+            ("&#13;", ["\r", "&#xd;"]), ("'", ["&apos;", "&#39;"])]
+    head, body = text.split("?>\n", 1)
+    for old, news in subs:
+        if rng.random() < 0.6:
+            body = body.replace(old, rng.choice(news))
+    if rng.random() < 0.7:
+        mode = rng.choice(["Internal", "Internal", "Other", "external", ""])
+        body = re.sub(r'( Target="[^"]*")/>', lambda m: m.group(1) + ' TargetMode="%s"/>' % mode, body)
+    return head + "?>\n" + body
+
+
+def _judge_rels_read(dec_line, raw, loaded, d):
+    from pptx.opc.packuri import PackURI
+    if dec_line == "none":
+        d.append("model reader refuses a document the loader reads")
+        return None
+    cur = oc.Cursor(dec_line.split("|"))
+    got = [(cur.s(), cur.s(), cur.s(), cur.raw()) for _ in range(cur.n())]
+    want = [(a, b, c, oc.MODE_CODE.get(m, "2")) for a, b, c, m in raw]
+    if got != want:
+        d.append("attributes read: model %r lxml %r" % (got[:3], want[:3]))
+    by_id = {}      # the collection is a dict keyed by rId (a variant can make two ids equal)
+    for a, b, c, m in got:
+        by_id[a] = (a, b, m == "1", c if m == "1" else str(PackURI.from_rel_ref("/", c)))
+    mload = list(by_id.values())
+    if mload != loaded:
+        d.append("load_from_xml: model %r impl %r" % (mload[:3], loaded[:3]))
+    return got
+
+
+def codec_rels_case(rels, variant_rng=None):
+    """(model cases, judge over their output lines) for one relationship list"""
     data, written = impl_rels_text(rels)
     text = data.decode("utf-8")
     raw, loaded = impl_rels_read(data)
     enc_case = ["encrels", str(len(written))]
     for rid, rtype, target, ext in written:
         enc_case += [rid, rtype, target, "1" if ext else "0"]
+    cases = [enc_case, ["decrels", text]]
+    vtext = vraw = vloaded = None
+    if variant_rng is not None:
+        vtext = codec_variant(text, variant_rng)
+        vraw, vloaded = impl_rels_read(vtext.encode("utf-8"))
+        cases.append(["decrels", vtext])
 
-    def judge(enc_line, dec_line):
-        from pptx.opc.packuri import PackURI
+    def judge(lines):
         d = []
-        mtext = dec(enc_line)
+        mtext = dec(lines[0])
         if mtext != text:
             i = next((j for j, (x, y) in enumerate(zip(mtext, text)) if x != y), min(len(mtext), len(text)))
             d.append("written text differs at %d: model %r lxml %r" % (i, mtext[max(0, i - 20):i + 30], text[max(0, i - 20):i + 30]))
-        if dec_line == "none":
-            d.append("model reader refuses lxml's own output")
-            return d
-        cur = oc.Cursor(dec_line.split("|"))
-        got = [(cur.s(), cur.s(), cur.s(), cur.raw()) for _ in range(cur.n())]
-        want = [(a, b, c, oc.MODE_CODE.get(m, "2")) for a, b, c, m in raw]
-        if got != want:
-            d.append("attributes read: model %r lxml %r" % (got[:3], want[:3]))
-        mload = [(a, b, m == "1", c if m == "1" else str(PackURI.from_rel_ref("/", c))) for a, b, c, m in got]
-        if mload != loaded:
-            d.append("load_from_xml: model %r impl %r" % (mload[:3], loaded[:3]))
-        if [(a, b, c, "1" if e else "0") for a, b, c, e in written] != got:
+        got = _judge_rels_read(lines[1], raw, loaded, d)
+        if got is not None and [(a, b, c, "1" if e else "0") for a, b, c, e in written] != got:
             d.append("round trip through lxml changed the list: %r -> %r" % (written[:3], got[:3]))
+        if vtext is not None:
+            dv = []
+            _judge_rels_read(lines[2], vraw, vloaded, dv)
+            d += ["variant %r: %s" % (vtext[-120:], x) for x in dv]
         return d
 
-    return enc_case, ["decrels", text], judge
+    return cases, judge
 
 
 def codec_ct_case(ds, os_):
@@ -335,7 +373,8 @@ def codec_ct_case(ds, os_):
     raw, maps = impl_ct_read(data)
     enc_case = ["encct", str(len(ds))] + [x for kv in ds for x in kv] + [str(len(os_))] + [x for kv in os_ for x in kv]
 
-    def judge(enc_line, dec_line):
+    def judge(lines):
+        enc_line, dec_line = lines
         d = []
         mtext = dec(enc_line)
         if mtext != text:
@@ -355,34 +394,34 @@ def codec_ct_case(ds, os_):
             d.append("round trip through lxml changed the table")
         return d
 
-    return enc_case, ["decct", text], judge
+    return [enc_case, ["decct", text]], judge
 
 
 def codec_phase(ck, tier, rng):
     """model/OpcCodec.v against lxml as python-pptx drives it.  Returns the number of diffs."""
     n_rels = 1500 if tier == "quick" else 15000
     n_ct = 300 if tier == "quick" else 3000
-    cases, judges, inputs = [], [], []
-    for _ in range(n_rels):
+    cases, judges, inputs = [], [], []      # judges: (first case index, number of cases, judge)
+    for i in range(n_rels):
         rels = gen_codec_rels(rng)
-        e, d_, j = codec_rels_case(rels)
-        cases += [e, d_]
-        judges.append(j)
-        inputs.append({"codec": "rels", "rels": [list(r) for r in rels]})
+        cs, j = codec_rels_case(rels, rng if i % 3 == 0 else None)
+        judges.append((len(cases), len(cs), j))
+        cases += cs
+        inputs.append({"codec": "rels", "rels": [list(r) for r in rels], "variant": cs[2][1] if len(cs) > 2 else None})
         ck.count(("codec-rels", rels), any(c in f for r in rels for f in r[:3] for c in "&<>\"\t\n\r"), "codec")
     for _ in range(n_ct):
         ds = [(codec_str(rng), codec_str(rng)) for _ in range(rng.randint(0, 6))]
         os_ = [(codec_str(rng), codec_str(rng)) for _ in range(rng.randint(0, 12))]
-        e, d_, j = codec_ct_case(ds, os_)
-        cases += [e, d_]
-        judges.append(j)
+        cs, j = codec_ct_case(ds, os_)
+        judges.append((len(cases), len(cs), j))
+        cases += cs
         inputs.append({"codec": "ct", "defaults": [list(x) for x in ds], "overrides": [list(x) for x in os_]})
         ck.count(("codec-ct", ds, os_), bool(ds or os_), "codec")
     diffs, first = 0, None
     if ck.build.ok:
         out = run_model("C01", cases)
-        for i, j in enumerate(judges):
-            d = j(out[2 * i], out[2 * i + 1])
+        for i, (at, n, j) in enumerate(judges):
+            d = j(out[at:at + n])
             if d:
                 diffs += 1
                 if first is None:
@@ -483,7 +522,7 @@ def run(ck, tier, rng):
     finally:
         shutil.rmtree(tmp, ignore_errors=True)
     return ck.finish(
-        rule="%d generated packages (4 of 5 well-formed: cycles, shared targets, several rels to one part, external links, ../ ./ and root-absolute targets, directory depth 0-5, Default/Override mixes with case-flipped extensions and part names, parts sharing an extension but not a type, binary and XML payloads; 1 of 5 carrying one malformation for model fidelity only) delivered as stream / zip path / directory, plus %d corpus decks; non-trivial = well-formed package with at least 2 reachable parts, or a corpus deck" % (n_pk, len(decks)),
+        rule="%d generated packages (4 of 5 well-formed: cycles, shared targets, several rels to one part, external links, ../ ./ and root-absolute targets, directory depth 0-5, Default/Override mixes with case-flipped extensions and part names, parts sharing an extension but not a type, binary and XML payloads; 1 of 5 carrying one malformation for model fidelity only) delivered as stream / zip path / directory, plus %d corpus decks; non-trivial = well-formed package with at least 2 reachable parts, or a corpus deck; plus %d codec documents (relationship lists of 0-40 entries and content-type tables whose strings mix & < > \" ' TAB LF CR, reference-like text, non-ASCII, the ends of the XML Char ranges and beyond-BMP characters, empty strings, both target modes): text written and text read back compared with model/OpcCodec.v" % (n_pk, len(decks), codec_docs),
         trusted_base=TB, assumptions=ASSUME,
         extra={"correspondence_diffs": diffs, "codec_documents": codec_docs, "codec_diffs": codec_diffs, "exhaustive": False, "unmodelled": meta.get("unmodelled", []),
                "theorem_hypotheses_on_inputs": dict(hyp, **covered)},
@@ -492,14 +531,26 @@ def run(ck, tier, rng):
 
 def replay_codec(inp):
     if inp["codec"] == "rels":
-        e, d_, j = codec_rels_case([tuple(r) for r in inp["rels"]])
+        cs, j = codec_rels_case([tuple(r) for r in inp["rels"]])
+        if inp.get("variant"):
+            vraw, vloaded = impl_rels_read(inp["variant"].encode("utf-8"))
+            cs.append(["decrels", inp["variant"]])
+            j0 = j
+
+            def j(lines):
+                dv = []
+                _judge_rels_read(lines[2], vraw, vloaded, dv)
+                return j0(lines[:2]) + ["variant: " + x for x in dv]
     else:
-        e, d_, j = codec_ct_case([tuple(x) for x in inp["defaults"]], [tuple(x) for x in inp["overrides"]])
-    out = run_model("C01", [e, d_])
-    print("lxml text :", repr(d_[1]))
+        cs, j = codec_ct_case([tuple(x) for x in inp["defaults"]], [tuple(x) for x in inp["overrides"]])
+    out = run_model("C01", cs)
+    print("lxml text :", repr(cs[1][1]))
     print("model text:", repr(dec(out[0])))
     print("model read:", out[1][:400])
-    d = j(out[0], out[1])
+    if len(cs) > 2:
+        print("variant   :", repr(cs[2][1]))
+        print("model read:", out[2][:400])
+    d = j(out)
     print("model/impl differences:", d)
     return 0 if not d else 1
 
@@ -541,8 +592,8 @@ def replay(rec):
 
 
 CLAIM = {
-    "tech": "Coq proof over a Gallina model of the OPC loader and writer (all package graphs, any lxml codec and any source tables as an abstract env) + tables re-extracted from the source tree each run + extracted-model correspondence on generated and corpus packages + independent oracle on the saved bytes",
-    "text": "7 theorems closed under the global context over every well-formed package (wf): the loaded package holds exactly the parts the relationship graph reaches, each once (the fuelled depth-first walk of _xml_rels / iter_rels is proved to compute reachability); the saved package has exactly the content types item, the package rels item, the reachable parts and the rels items of parts that have relationships; every part keeps its content type and payload (re-serialised for XML part classes, same bytes otherwise) with no side condition, because the writer uses a Default only for an extension the default table maps to one type (C01_no_default_clash); every source keeps its relationships (id, type, mode, resolved target or external text); open-save-open-save reproduces the same members with the same bytes. Tied to opc/package.py + opc/serialized.py by 4,000 (quick) / 40,000 (thorough) generated packages (cycles, shared targets, external links, ../ ./ and absolute targets, depth 0-5, Default/Override mixes with case flips, parts sharing an extension but not a type, binary and XML payloads, 16 malformations) delivered as stream, zip path and directory, plus corpus decks, comparing loaded graph, member order, decoded content types and rels, payloads and second-save identity; the generator's well-formed stream is confirmed to meet the decidable form of wf on every input.",
-    "note": "lxml enters as env hypotheses dec (enc x) = Some x and reser idempotent (observed through second-save byte identity); str.lower / isdigit modelled on ASCII; zipfile, os.path and Python's recursion limit (relationship chains about 1000 parts deep raise RecursionError) are outside the model; targets naming [Content_Types].xml or a rels item and member names that are not normalised part names are outside wf. The former counter-example (two .bin parts with different printer-settings types merged under one Default) is a regression Example and the oracle signature default-clash stays active.",
+    "tech": "Coq proof over a Gallina model of the OPC loader and writer (all package graphs; any lxml codec and any source tables as an abstract env, AND a concrete verified codec: byte-level writer and reader of the rels and content-types items with dec (enc x) = Some x proved for all XML strings, tied byte for byte to lxml) + tables re-extracted from the source tree each run + extracted-model correspondence on generated and corpus packages + independent oracle on the saved bytes",
+    "text": "Codec hypothesis discharged: C01_codec_rels / C01_codec_ct (the reader gives back every writable relationship list / content-type table, no bound on sizes), C01_rels_concrete / C01_payload_type_concrete hold with NO assumption about lxml (only: reachable names and initial defaults are XML strings); codec_ok as first stated (every list, also non-XML characters) is shown too strong for any XML reader (C01_codec_ok_too_strong) and replaced by codec_ok_on. 7 theorems closed under the global context over every well-formed package (wf): the loaded package holds exactly the parts the relationship graph reaches, each once (the fuelled depth-first walk of _xml_rels / iter_rels is proved to compute reachability); the saved package has exactly the content types item, the package rels item, the reachable parts and the rels items of parts that have relationships; every part keeps its content type and payload (re-serialised for XML part classes, same bytes otherwise) with no side condition, because the writer uses a Default only for an extension the default table maps to one type (C01_no_default_clash); every source keeps its relationships (id, type, mode, resolved target or external text); open-save-open-save reproduces the same members with the same bytes. Tied to opc/package.py + opc/serialized.py by 4,000 (quick) / 40,000 (thorough) generated packages (cycles, shared targets, external links, ../ ./ and absolute targets, depth 0-5, Default/Override mixes with case flips, parts sharing an extension but not a type, binary and XML payloads, 16 malformations) delivered as stream, zip path and directory, plus corpus decks, comparing loaded graph, member order, decoded content types and rels, payloads and second-save identity; the generator's well-formed stream is confirmed to meet the decidable form of wf on every input.",
+    "note": "for the abstract env lxml enters as hypotheses dec (enc x) = Some x and reser idempotent; for the concrete codec only reser idempotent remains (second-save theorem only), and that the concrete writer / reader ARE what lxml does is the codec correspondence of every run (1800 documents, byte for byte); str.lower / isdigit modelled on ASCII; zipfile, os.path and Python's recursion limit (relationship chains about 1000 parts deep raise RecursionError) are outside the model; targets naming [Content_Types].xml or a rels item and member names that are not normalised part names are outside wf. The former counter-example (two .bin parts with different printer-settings types merged under one Default) is a regression Example and the oracle signature default-clash stays active.",
     "ref": "6/C01",
 }
